@@ -5,6 +5,14 @@ ROOT = os.path.dirname(os.path.dirname(os.path.abspath(__file__)))
 
 CLAIMED = {
  # id: (category, text, note, technique, design_ref)
+ "C02": ("exploration",
+         "Seeded simulation of six HLL replicas (Hll4/6/8 on a shared ordered channel with duplicates; Hll4/6/8 each on its own at-least-once channel with reordering, duplication and loss/retransmit) fed crafted coupon streams that force every promotion, Hll4 cur_min shifts with a live aux map and register values to 63; each replica is compared with the textbook per-slot-maximum model of exactly what it was delivered (state hook and independently decoded serialize() image), the three types must agree bit-for-bit on estimate and bounds after every shared delivery, and all replicas must converge at quiescence. Sampling of schedules and streams, not proof.",
+         "Trusted: the model in sim/src/model/hll.rs, the independent image decoder, C16 for item->coupon. The deciding oracle is the per-replica model; the network contributes permutations and multiplicities.",
+         "deterministic simulation: replicas under reordered/duplicated/lossy delivery vs reference model; convergence at quiescence", "DESIGN.md §4 C02"),
+ "C03": ("exploration",
+         "Seeded simulation of an HLL aggregation tree: workers of mixed lg_k/type/mode flush sketches in memory, as serialized images and as out-of-order images over an at-least-once network (reorder, duplicate, loss) to aggregators holding HllUnion, plus foreign out-of-order array images, update_value, reset and to_sketch->root; every aggregator is checked against the model of the contributions it absorbed since reset (coupon set or max-folded registers at min(lg_max_k, array inputs), consistent cached counts/kxq/aux), with estimate/bounds required bit-identical across to_sketch types and equal to the union's own, and > 0 after a non-empty input.",
+         "Trusted: contribution-set model, independent HLL encoder/decoder. Order independence is demanded of state and lg_k only (HIP estimates are legitimately history dependent).",
+         "deterministic simulation: at-least-once network with reorder/dup/loss feeding unions vs contribution-set model", "DESIGN.md §4 C03"),
  "C16": ("exploration",
          "Seeded simulation of the one stream-shaped seam in the library (Hasher::write): every run draws byte strings, seeds and chunkings (short writes, zero-length writes, block-edge cuts; all 2^(n-1) splits for n<=12) and compares the library digests and every derived quantity (HLL coupon, theta hash, CPC row/col, Count-Min buckets, Bloom positions, seed hash) with independent one-shot reference hashes. Sampling, not proof: a clean batch is evidence over the explored chunkings.",
          "Trusted: sim/src/refhash.rs (validated against canonical MurmurHash3/XXH64 vectors at start-up); std Hash impls feed little-endian bytes.",
